@@ -23,7 +23,7 @@ type c14 struct{ base }
 func init() {
 	core.Register(c14{base{id: "C14", level: "exploration", quickB: 16, thoroughB: 32,
 		rule:        "tables of 1-12 columns over {bool,int2,int4,int8,float4,float8,text,varchar,bytea,uuid,oid,date,timestamp,timestamptz,int4[],text[]}, 0-50 rows, NULL density 0-100%, encoded by the harness's own binary COPY encoder (19-byte header, rows, optional trailer); the stream is cut into CopyData messages: one message, every single cut position (exhaustive for streams <= 400 bytes), 1-byte messages, random multi-cuts, cuts inside header / field count / field length / value, empty CopyData messages interleaved; rows returned by the library's row reader must equal the rows sent (value per type, NULL as nil) and end with io.EOF, identically for all splits; streams of 3L+ bytes (fields of 5-30 KB) are cut into messages of L, L-1, L-r bytes that arrive while 1-60 bytes of a row are still buffered. Every truncation point of small streams (<= 200 bytes) followed by CopyDone: clean end exactly on row boundaries, error elsewhere. Corruptions (a well-framed array value whose own header lies, a well-framed value of an impossible size for its fixed-width type, field count +-1, 0, field length beyond the stream, length -2, stream ending mid-row, trailer mid-stream): a non-EOF error (or early EOF for the trailer), rows before it a prefix of the rows sent, no crash (child process). Non-trivial = split inside a row, trailer present, NULLs, or a corruption; distinct = (column types, rows, cut-set class, corruption).",
-		need:        []string{"near_limit_messages", "streams_run", "rows_compared", "split_inside_row", "with_trailer", "single_cut_positions", "corruptions_run", "null_fields", "truncation_points", "connections_lost_inside_a_copydata_message"},
+		need:        []string{"near_limit_messages", "streams_run", "rows_compared", "split_inside_row", "with_trailer", "single_cut_positions", "corruptions_run", "null_fields", "truncation_points", "connections_lost_inside_a_copydata_message", "oversized_copydata_inside_a_binary_stream"},
 		assumptions: append([]string{"header flags and extension length are zero (standard header); a field longer than the message limit L is not generated"}, commonAssumptions...)}})
 }
 
